@@ -45,7 +45,7 @@ var c03Dims = []c03Dim{
 	{"pipeline", []string{"proxy", "reqadaptor-body", "reqadaptor-compress", "reqadaptor-decompress", "respadaptor-body", "respadaptor-compress", "respadaptor-decompress"}},
 	{"server-url", []string{"ip", "hostname", "hostname+keepHost"}},
 	{"compression", []string{"off", "minLength1024"}},
-	{"mode", []string{"buffered", "stream"}},
+	{"mode", []string{"buffered", "stream", "buffered-limit2000"}},
 }
 
 type c03Case map[string]string
@@ -116,6 +116,9 @@ func c03Front(cs c03Case) (*lbFront, error) {
 	}
 	if cs["mode"] == "stream" {
 		proxy += "    serverMaxBodySize: -1\n"
+	}
+	if cs["mode"] == "buffered-limit2000" {
+		proxy += "    serverMaxBodySize: 2000\n"
 	}
 	if cs["compression"] != "off" {
 		proxy += "  compression:\n    minLength: 1024\n"
@@ -302,6 +305,13 @@ func TestVerifC03(t *testing.T) {
 			c.Failf("host-header:"+cs.tags("server-url"), "backend saw Host %q, expected %q\n%s", s.host, wantHost, desc)
 		}
 		// ---- what the client saw
+		if cs["mode"] == "buffered-limit2000" && (len(sc.body) > 2000 || len(respLogical) > 2000) && !noRespBody {
+			// a response body above serverMaxBodySize (on the wire, or once the transport has undone a gzip
+			// encoding the client did not ask for) is refused: the business of C07, not of this check.  A HEAD
+			// (or 204 / 304) response has no body whatever length it declares, so it is judged like any other.
+			c.Outcome("response-over-the-body-limit")
+			return
+		}
 		if resp.framingErr != "" {
 			c.Failf("response-misframed:"+cs.tags(respDims...), "%s\n%s", resp.framingErr, desc)
 		}
